@@ -168,6 +168,20 @@ def run(ctx):
         r3.check(out[0] == "raised" and out[1] == "BackendError", f"{m.module.relpath}::{m.qual}::query-failure", f"a failing {'/'.join(sorted(set(out[2]))) or 'query'} propagates as BackendError",
                  f"with the scheduler's queue/accounting query failing, {cname}.get_job_states {out[0]} {out[1]!r}: tracked jobs that are still pending then look unknown, "
                  "and the next run submits them a second time", m.where)
+    # ... and neither does the backend object around the Ops: with the query failing, constructing the backend must fail (or err on the side of "still there") - a
+    # state table in which the jobs on record look unknown makes the run submit every one of them again
+    from .evalhelpers import eval_backend_init
+    bi = eval_backend_init(ctx, {"A": "11", "B": "22"}, query_fails=True)
+    tb_ci = idx.cls(f"{BASE}:TrackingBackend")
+    if isinstance(bi, str):
+        r3.check(not bi.startswith("<Unsupported"), f"{tb_ci.module.relpath}::TrackingBackend::start::query-failure", "a failing state query stops the command before anything is submitted",
+                 f"the backend's initialisers cannot be evaluated with a failing query: {bi}", tb_ci.where)
+    else:
+        st_ = bi.get("states") if isinstance(bi.get("states"), dict) else {}
+        blind = [i for i in ("11", "22") if getattr(st_.get(i), "member", "UNKNOWN") == "UNKNOWN"]
+        r3.check(not blind, f"{tb_ci.module.relpath}::TrackingBackend::start::query-failure", "a failing state query stops the command before anything is submitted",
+                 f"with jobs 11 and 22 on record and the scheduler's state query failing (BackendError), the backend is constructed all the same with the state table {st_}: "
+                 f"jobs {blind} look unknown although they may be pending or running, so this run submits their targets a second time", tb_ci.where)
     # a query that "succeeds" with a document cut off half-way (qstat -xml from a busy qmaster) is a failed query too: it must not read as "nothing is queued"
     from .evalhelpers import eval_garbled_query, eval_call_once
     out_g, m_g = eval_garbled_query(ctx, "gwf.backends.sge", "SGEOps")
@@ -210,3 +224,8 @@ def run(ctx):
     # ---------------- R5 atomic replace
     r5 = ctx.rule("R5", "state files are replaced atomically (never truncated in place)", min_instances=2)
     rule_atomic_replace(ctx, r5)
+    # "the next invocation ... never duplicates accepted jobs": the id recorded for an accepted job is the id the next invocation asks about and looks up - whatever its
+    # value (the local pool's first task is 0)
+    r6 = ctx.rule("R6", "the next invocation finds every accepted job again: the recorded id is the one asked about and looked up (C08.R2)", min_instances=6)
+    from .shared import import_rules
+    import_rules(ctx, r6, "C08", only={"R2"})
